@@ -501,6 +501,7 @@ func (h *H) setBlock(b sim.BlockSet) {
 // call starts an own query in a goroutine and logs Call; the returned channel yields when it returned
 // (the Ret line is logged by ret()).
 type call struct {
+	t      []byte
 	k      int
 	dst    *net.UDPAddr
 	cancel context.CancelFunc
